@@ -85,8 +85,8 @@ let rop_of (s : string) : regop =
   | ["dm"; e; c] -> DeleteDownstreamMessage (eui_of e, i64_of c)
   | ["lm"; e] -> ListDownstreamMessages (eui_of e)
   | ["x"] -> Reopen
-  | ["af"; e; a; nf; kw] -> AdvanceFCntUp (eui_of e, n_of a, n_of nf, b_of kw)
-  | ["nd"; e] -> NextFCntDn (eui_of e)
+  | ["af"; e; k; a; nf; kw] -> AdvanceFCntUp (eui_of e, bytes_of_hex k, n_of a, n_of nf, b_of kw)
+  | ["nd"; e; k] -> NextFCntDn (eui_of e, bytes_of_hex k)
   | ["ss"; e; c; sent; fc] -> SetMessageSentTime (eui_of e, i64_of c, i64_of sent, n_of fc)
   | ["ua"; e; fc; at] -> UpdateMessageAckTime (eui_of e, n_of fc, i64_of at)
   | ["ra"; e] -> ResetActiveAcks (eui_of e)
